@@ -42,7 +42,7 @@ ToOf(k) == [label |-> LabelModes[k.lm].label, empties |-> LabelModes[k.lm].empti
 (* ------------------------------------------------------------ t2l / t1l *)
 TA == <<"animal", "dog">>   TB == <<"sex", "male">>   TC == <<"animal", "cat">>
 TagLists == <<<<>>, <<TA>>, <<TA, TB>>, <<TB, TC, TA>>, <<TB, TC>>>>
-IdxVals  == IF Quick THEN {-3, -1, 0, 1, 2, 5} ELSE -7..7
+IdxVals  == IF Quick THEN {-3, -1, 0, 2, 5} ELSE -7..7
 T2lCases == {[kind |-> "t2l", tl |-> tl, seqfn |-> sf, sel |-> s, idx |-> ix, sep |-> sp, empty |-> em, fn |-> fn, map |-> mp, vo |-> vo] :
              tl \in 1..Len(TagLists), sf \in BOOLEAN, s \in Opt({"animal", "sex", "zzz"}), ix \in Opt(IdxVals),
              sp \in Opt({"|"}), em \in Opt({"NA"}), fn \in BOOLEAN, mp \in Tri, vo \in {"a", "t", "f"}}
@@ -92,7 +92,7 @@ ImpOf(k) == ImpCommon(k) @@ [els |->
 ExpSrs == {2, 3, 4, 8}
 ExpSingles == {[kind |-> "exp", via |-> v, sr |-> sr, cast |-> ca, ign |-> FALSE, rtg |-> r, vo |-> vo, ix |-> <<g>>] :
                v \in {"segment", "bbox"}, sr \in ExpSrs, ca \in BOOLEAN, r \in BOOLEAN, vo \in BOOLEAN, g \in 1..Len(Cat)}
-ListPool == IF Quick THEN <<4, 12, 8, NONE, 2>> ELSE <<4, 12, 8, NONE, 15, 2, 14, 21>>
+ListPool == IF Quick THEN <<4, 12, 8, NONE>> ELSE <<4, 12, 8, NONE, 15, 2, 14, 21>>
 ExpLists == {[kind |-> "exp", via |-> v, sr |-> 4, cast |-> ca, ign |-> ig, rtg |-> r, vo |-> FALSE, ix |-> l] :
              v \in {"sequence", "annot_seq", "annot_bbox"}, ca \in BOOLEAN, ig \in BOOLEAN, r \in BOOLEAN,
              l \in {[j \in DOMAIN m |-> ListPool[m[j]]] : m \in Lists(Len(ListPool))}}
